@@ -137,6 +137,10 @@ pub struct ScriptedReader<'a> {
     /// every read that delivers bytes takes this long inside `poll_read` (a transport that decrypts, decompresses or
     /// copies from a slow device before it answers); taken from `SLOW_READ_US` when the reader is made
     pub delay_us: u32,
+    /// the connection stays open and idle behind the data: a read issued after everything was delivered is not the
+    /// end of the stream but never becomes ready (counted in `idle_polls`)
+    pub idle_at_end: bool,
+    pub idle_polls: usize,
 }
 
 thread_local! {
@@ -167,6 +171,8 @@ impl<'a> ScriptedReader<'a> {
             ends: Rc::new(Cell::new(0)),
             after_eof: None,
             delay_us: SLOW_READ_US.with(|c| c.get()),
+            idle_at_end: false,
+            idle_polls: 0,
         }
     }
     pub fn with_fault(mut self, pos: usize, kind: io::ErrorKind) -> Self {
@@ -233,6 +239,11 @@ impl<'a> AsyncRead for ScriptedReader<'a> {
             }
         }
         let mut n = me.data.len() - me.pos;
+        if n == 0 && me.idle_at_end {
+            // (also for a read with an empty buffer: a socket that has nothing to deliver is simply not ready)
+            me.idle_polls += 1;
+            return Poll::Pending;
+        }
         if n == 0 {
             me.reads_at_end += 1;
             if let (Some(k), true) = (me.after_eof, me.reads_at_end > 1 && cap > 0) {
